@@ -296,7 +296,12 @@ func (r *rich) traffic(c *fw.Case, intensity int) {
 		case 0:
 			msg = &sigtypes.MsgPublishReferencePayloadLink{Creator: e.owners[0].Bech(), Key: fmt.Sprintf("key-%d", c.R.Intn(6)), Value: fmt.Sprintf("value-%d", c.R.Intn(1000))}
 		case 1:
-			msg = &sigtypes.MsgStoreSignature{Creator: e.owners[0].Bech(), StorageKey: fmt.Sprintf("sk-%d", c.R.Intn(6)), SignatureJSON: fmt.Sprintf(`{"signature":"c2ln%d","algorithm":"ecdsaWithSha256","certificate":"cert"}`, c.R.Intn(10))}
+			js := fmt.Sprintf(`{"signature":"c2ln%d","algorithm":"ecdsaWithSha256","certificate":"cert"}`, c.R.Intn(10))
+			if c.R.Intn(3) == 0 {
+				// a document that spells its field names in other ways, several times over
+				js = fmt.Sprintf(`{"Signature":"c2lnQQ%d","SIGNATURE":"c2lnQg%d","signaturE":"c2lnQw%d","Algorithm":"ecdsaWithSha256","ALGORITHM":"sha256WithRsaEncryption","Certificate":"cert-a","CERTIFICATE":"cert-b","certificatE":"cert-c"}`, c.R.Intn(10), c.R.Intn(10), c.R.Intn(10))
+			}
+			msg = &sigtypes.MsgStoreSignature{Creator: e.owners[0].Bech(), StorageKey: fmt.Sprintf("sk-%d", c.R.Intn(6)), SignatureJSON: js}
 		default:
 			bz, _ := e.n.Enc.Marshaler.MarshalInterfaceJSON(chain.NewKey(fmt.Sprintf("sig-new-%d", c.R.Intn(1000))).Priv.PubKey())
 			msg = &sigtypes.MsgCreateAccount{Creator: e.owners[0].Bech(), AccAddressString: chain.NewKey(fmt.Sprintf("sig-new-%d", c.R.Intn(1000))).Bech(), PubKeyString: string(bz)}
